@@ -21,6 +21,7 @@ RULE = (
     ' Round 5: two passes over one object alive at once, advanced alternately.'
     ' Round 6: construction by keyword, sections of 257-330 measures, compact layout (separator on a row line).'
     ' Round 7: inexact beats of equal value built before decoding.'
+    ' Round 8: keysound indices of 2^31 and more; compact layouts beginning with a blank whose first measure is one row.'
 )
 ASSUMPTIONS = ["the generator renders cells to text faithfully", "fractions.Fraction is exact"]
 MONITORS = ["decode", "repeat_iteration", "interleaved_iteration", "ordering_ops", "str_identity", "columns", "via_chart"]
